@@ -3,10 +3,12 @@ package main
 import (
 	"bytes"
 	"context"
+	"fmt"
 	"github.com/ddddddO/gtree"
 	"os"
 	"path/filepath"
 	"strings"
+	"time"
 )
 
 // C06 / C07 / C08 / C09 share the jail machinery (cases.go: runMkdir / runVerify).
@@ -18,7 +20,7 @@ func init() {
 	props["c09"] = runC09
 }
 
-var extLists = [][]string{nil, {".go"}, {"Makefile"}, {"go", ".go"}, {".md", "Makefile", ".go"}, {""}, {"a"}, {".x.go", ".go"}, {".go", ".x.go"}, {"b.go"}}
+var extLists = [][]string{nil, {".go", ".md", ".go"}, {".go"}, {"Makefile"}, {"go", ".go"}, {".md", "Makefile", ".go"}, {""}, {"a"}, {".x.go", ".go"}, {".go", ".x.go"}, {"b.go"}}
 
 // nodePaths lists the relative paths (under the target) of all nodes of the forest.
 func nodePaths(f []*Tree) (paths []string, leaf map[string]bool) {
@@ -157,6 +159,37 @@ func runC06(ctx *Ctx) *Report {
 	rep.Exhaustive = true
 	rep.Notes = append(rep.Notes, "every forest ≤ "+itoa(n)+" nodes with distinct roots over {a, b.go, Makefile} × rotating extension lists × target states")
 	runCases(rep, cases, ctx.Workers, func(c Case) bool { return len(c.Doc) > 24 })
+	// many roots, one of them already there (as a file, as a directory): path-exists, nothing changes
+	{
+		var many []*Tree
+		for i := 0; i < 24; i++ {
+			many = append(many, &Tree{Name: "r" + fmtInt(i) + ".go", Kids: nil})
+			many = append(many, &Tree{Name: "d" + fmtInt(i), Kids: []*Tree{{Name: "x"}}})
+		}
+		m := NewModel()
+		for ci, pre := range [][]FSEntry{{{"t", "d"}, {"t/r17.go", "f4"}}, {{"t", "d"}, {"t/d20", "d"}, {"t/d20/keep", "f2"}}, {{"t", "d"}, {"t/r0.go", "f1"}}, {{"t", "d"}, {"t/d23", "f3"}}} {
+			for _, nroots := range []int{16, 17, 18, 48} {
+				doc := spell(many[:nroots], plainSpelling)
+				c := newCase("mkdir")
+				c.Doc, c.DocText, c.Exts, c.Target, c.Pre, c.Note = hx(doc), "<"+fmtInt(nroots)+" roots>", []string{".go"}, "t", pre, "many roots, one pre-exists"
+				d, _ := runMkdir(m, c)
+				rep.Record(c, caseKey(c), true, d)
+				rep.Count("many-roots-one-exists")
+				_ = ci
+			}
+		}
+		m.Close()
+	}
+	// the massive option with a target spelled through a missing directory and back ("nope/../t"): one root, already there
+	for _, kind := range []string{"d", "f3"} {
+		for _, tgt := range []string{"nope/../t", "t/", "./t"} {
+			c := newCase("massive-mkdir")
+			c.Massive, c.Doc, c.DocText, c.Exts, c.Target, c.RawTgt = true, hxs("- r\n  - a.go\n"), "- r / a.go", []string{".go"}, tgt, true
+			c.Pre = []FSEntry{{"t", "d"}, {"t/r", kind}}
+			rep.Record(c, caseKey(c), true, runMassiveMkdir(c))
+			rep.Count("massive-mkdir/raw-target")
+		}
+	}
 	// more roots than the pipeline has workers, with the massive option: every root is created
 	{
 		var many []*Tree
@@ -297,6 +330,63 @@ func runC07(ctx *Ctx) *Report {
 			c := newCase("mkdir")
 			c.FromRoot, c.Tree, c.Target, c.Pre, c.Dry, c.Note = true, enc, "t", []FSEntry{{"t", "d"}, {"sib", "d"}}, dry, "hostile=<empty>"
 			cases = append(cases, c)
+		}
+	}
+	// a root that has been through a validating call already and then gets a hostile name somewhere below:
+	// the next call validates the tree as it is now
+	for hi, h := range []string{"..", "a/b", ".", "/"} {
+		for _, first := range []string{"dry", "verify", "real"} {
+			for _, massive := range []bool{false, true} {
+				jail := newJail()
+				t := filepath.Join(jail, "x", "t")
+				root := gtree.NewRoot("r")
+				b := root.Add("a").Add("b")
+				var o []gtree.Option
+				if massive {
+					o = append(o, gtree.WithMassive(context.Background()))
+				}
+				switch first {
+				case "dry":
+					colorOutMu.Lock()
+					old := colorOutput()
+					setColorOutput(&lockedBuf{})
+					gtree.MkdirFromRoot(root, append(o, gtree.WithTargetDir(t), gtree.WithDryRun())...)
+					setColorOutput(old)
+					colorOutMu.Unlock()
+				case "verify":
+					gtree.VerifyFromRoot(root, append(o, gtree.WithTargetDir(t))...)
+				case "real":
+					gtree.MkdirFromRoot(root, append(o, gtree.WithTargetDir(filepath.Join(jail, "first")))...)
+				}
+				n := b
+				for i := 0; i < 4; i++ {
+					n = n.Add(h)
+					if h != ".." {
+						break
+					}
+				}
+				n.Add("esc")
+				before := snapshot(jail)
+				err := gtree.MkdirFromRoot(root, append(o, gtree.WithTargetDir(t))...)
+				time.Sleep(5 * time.Millisecond)
+				after := snapshot(jail)
+				var diffs []Diff
+				if k := errClass(classify(err)); k != "invalidname" && k != "invalidpath" {
+					diffs = append(diffs, Diff{What: "a hostile name added after an earlier validating call (" + first + ") is not rejected", Real: classify(err), Model: "invalid node name"})
+				}
+				if !massive && strings.Join(before, ",") != strings.Join(after, ",") {
+					diffs = append(diffs, Diff{What: "a rejected tree created something", Real: strings.Join(after, ","), Model: strings.Join(before, ",")})
+				}
+				for _, e := range after {
+					pth := string(unhx(strings.SplitN(e, ":", 2)[0]))
+					if !strings.HasPrefix(pth, filepath.Join(jail, "x")) && !strings.HasPrefix(pth, filepath.Join(jail, "first")) {
+						diffs = append(diffs, Diff{What: "something was created outside the target", Real: pth, Model: "inside " + t})
+					}
+				}
+				rep.Record(map[string]any{"kind": "revalidate", "hostile": h, "first": first, "massive": massive}, "revalidate:"+fmtInt(hi)+first+b01(massive), true, diffs)
+				rep.Count("revalidate")
+				os.RemoveAll(jail)
+			}
 		}
 	}
 	var mcases []Case
@@ -440,11 +530,92 @@ func runC08(ctx *Ctx) *Report {
 			}
 		}
 	}
+	// sibling names where one is the other plus a suffix that sorts before '/', extras that sort last;
+	// names that end in blanks (the listed paths are the node paths, byte for byte)
+	for fi, f := range [][]*Tree{
+		{{Name: "r", Kids: []*Tree{{Name: "cmd", Kids: []*Tree{{Name: "a"}}}, {Name: "cmd.md"}, {Name: "lib"}, {Name: "lib-old", Kids: []*Tree{{Name: "x"}}}}}},
+		{{Name: "a", Kids: []*Tree{{Name: "b"}}}, {Name: "a b", Kids: []*Tree{{Name: "c"}}}, {Name: "a!"}},
+		{{Name: "r", Kids: []*Tree{{Name: "cmd", Kids: []*Tree{{Name: "a"}}}, {Name: "cmd.md"}}}},
+		{{Name: "r", Kids: []*Tree{{Name: "a", Kids: []*Tree{{Name: "b"}}}, {Name: "a b"}, {Name: "a!"}, {Name: "a-x", Kids: []*Tree{{Name: "y"}}}}}},
+		{{Name: "r ", Kids: []*Tree{{Name: "k\u3000"}, {Name: "m\t", Kids: []*Tree{{Name: "z "}}}}}},
+		{{Name: "t\u00a0", Kids: []*Tree{{Name: "u "}}}},
+	} {
+		doc := spell(f, plainSpelling)
+		paths, _ := nodePaths(f)
+		for mi := 0; mi < 6; mi++ {
+			pre := []FSEntry{{"t", "d"}}
+			for pi, p := range paths {
+				if (pi+mi)%3 != 0 || mi == 5 {
+					pre = append(pre, FSEntry{"t/" + p, "d"})
+				}
+			}
+			switch mi % 3 {
+			case 0:
+				pre = append(pre, FSEntry{"t/" + paths[0] + "/zzz", "f1"}, FSEntry{"t/" + paths[0] + "/~last", "d"})
+				if len(paths) > 1 {
+					pre = append(pre, FSEntry{"t/" + paths[1] + "/zzz", "f1"}, FSEntry{"t/" + paths[1] + "/~", "d"})
+				}
+			case 1:
+				pre = append(pre, FSEntry{"t/" + paths[0] + "/!first", "f1"})
+			}
+			for _, strict := range []bool{false, true} {
+				c := newCase("verify")
+				c.Doc, c.DocText, c.Target, c.Strict, c.Pre, c.Tree, c.Note = hx(doc), docText(doc), "t", strict, pre, encForest(f), "names:"+fmtInt(fi)
+				cases = append(cases, c)
+				if len(f) == 1 {
+					c.Massive = true
+					cases = append(cases, c)
+				}
+			}
+		}
+	}
 	parallel(cases, ctx.Workers, func(m *Model, c Case) {
 		diffs, realv := runCaseR(m, c)
 		rep.Record(c, caseKey(c), len(c.Pre) >= 3, diffs)
 		rep.Count("result:" + resultClass(realv) + ifs(c.Strict, "/strict", ""))
 	})
+	// a root that is a symbolic link: to a directory that matches (verifies), to nothing (every path is missing)
+	{
+		doc := []byte("- r\n  - a\n    - b.go\n  - c\n")
+		for li, tc := range []struct {
+			pre  []FSEntry
+			want string
+		}{
+			{[]FSEntry{{"real/r/a/b.go", "f0"}, {"real/r/c", "d"}, {"t", "d"}, {"t/r", "l:real/r"}}, "nil"},
+			{[]FSEntry{{"t", "d"}, {"t/r", "l:nowhere/r"}}, "missing"},
+			{[]FSEntry{{"real/r/a", "d"}, {"t", "d"}, {"t/r", "l:real/r"}}, "missing"},
+			{[]FSEntry{{"real/t/r/a/b.go", "f0"}, {"real/t/r/c", "d"}, {"t", "l:real/t"}}, "nil"},
+		} {
+			for _, strict := range []bool{false, true} {
+				for _, massive := range []bool{false, true} {
+					jail := newJail()
+					populate(jail, tc.pre)
+					o := []gtree.Option{gtree.WithTargetDir(filepath.Join(jail, "t"))}
+					if strict {
+						o = append(o, gtree.WithStrictVerify())
+					}
+					if massive {
+						o = append(o, gtree.WithMassive(context.Background()))
+					}
+					err := gtree.VerifyFromMarkdown(bytes.NewReader(doc), o...)
+					got := "nil"
+					if err != nil {
+						got = "missing"
+						if !strings.Contains(err.Error(), "not exist") {
+							got = "other:" + err.Error()
+						}
+					}
+					var diffs []Diff
+					if got != tc.want {
+						diffs = append(diffs, Diff{What: "verify through a symbolic link", Real: got + " (" + fmt.Sprint(err) + ")", Model: tc.want})
+					}
+					rep.Record(map[string]any{"kind": "verify-symlink", "case": li, "strict": strict, "massive": massive}, "symlink:"+fmtInt(li)+b01(strict)+b01(massive), true, diffs)
+					rep.Count("verify-symlink")
+					os.RemoveAll(jail)
+				}
+			}
+		}
+	}
 	// relation: a tree just created by Mkdir with any extension list verifies strictly (real code only)
 	type mv struct {
 		Kind string   `json:"kind"`
